@@ -504,6 +504,15 @@ func handleHINCRBY(params internal.HandlerFuncParams) ([]byte, error) {
 		f, _ := hash[field].(float64)
 		if strings.EqualFold(params.Command[0], "hincrbyfloat") {
 			hash[field] = f + floatIncrement
+		} else if f == math.Trunc(f) && f >= math.MinInt && f < -float64(math.MinInt) {
+			// The field holds a whole number (e.g. the result of HINCRBYFLOAT by 100):
+			// add the integer exactly instead of rounding the sum to a float.
+			i := int(f)
+			if (intIncrement > 0 && i > math.MaxInt-intIncrement) ||
+				(intIncrement < 0 && i < math.MinInt-intIncrement) {
+				return nil, errors.New("increment would overflow")
+			}
+			hash[field] = i + intIncrement
 		} else {
 			hash[field] = f + float64(intIncrement)
 		}
